@@ -124,4 +124,9 @@ PROPS = {
         "rule": "cases = generated histories, each executed under 5-8 configurations (commit_concurrency in {1,2,3,4,5,7,8,16,33,64}, warm_up on/off, page cache 1..256 MiB, leaf cache 1..256 MiB, io_workers 1..3, prepopulation, upper levels 0..3, hashtable_buckets in {4096,16384,64000}, different bitbox seeds; the runtime configuration also changes at every reopen); EVERY protocol line (roots, values, proofs byte-for-byte, commit / rollback verdicts, seqn) must be identical across configurations and equal to the configuration-free Lean model. distinct & non-trivial = (history, configuration) pairs beyond the first configuration that completed identically.",
         "trusted_base": API_TB, "assumptions": ["thread interleavings are whatever the runs happen to exhibit (sampled, not enumerated)", "sha2 hasher variant not exercised (engine is instantiated with Blake3)"],
     },
+    "C06": {
+        "runs": DB_SCN(["witness-many-workers"]) + [DB("kv", 200, 2000, nops=14), DB("overlay", 80, 800, nops=14), DB("kv", 6, 60, nops=14, scale=60, shards_q=6), DB("general", 60, 600, nops=14)],
+        "rule": DB_RULE + " C06: half of all sessions (all in the directed scenario) run with WitnessMode::read_write(); the real witness is (i) verified path by path against the base root, every read confirmed with the real verifier and compared with the session's view, every write matched against the batch, and replayed with the real verify_update against the reported new root (oracle), and (ii) canonicalised and compared byte-for-byte with the Lean witnessSpec. Batches mix reads, writes, read-then-writes, deletes of absent keys, several keys per terminal, 1..64 workers.",
+        "trusted_base": API_TB, "assumptions": API_ASSUME,
+    },
 }
